@@ -1078,3 +1078,43 @@ V('w7a-static-not-required', 'C07', 'C07.W', (C, """    pub fn enhance_hot_reloa
             reloader.send_static(assets);
         }
     }"""), witness=True)
+
+# ---- added after the first round of independently seeded changes
+V('c05-batch-only-first-event', 'C05', 'C05.R7', (H, '''            Self::Multiple(e) => e.into_iter().for_each(f),''', '''            Self::Multiple(e) => e.into_iter().take(1).for_each(f),'''))
+V('c05-events-dropped-when-busy', 'C05', 'C05.R7', (HP, '''            if self.deps.contains(&entry) {
+                log::trace!("New event: {entry:?}");
+                self.to_reload.insert(entry);
+            }''', '''            if self.deps.contains(&entry) && self.to_reload.len() < 64 {
+                log::trace!("New event: {entry:?}");
+                self.to_reload.insert(entry);
+            }'''))
+V('c14-file-dep-swapped', 'C14', 'C14.R6', (HRc, '''            self.records.0.insert(Dependency::File(id, ext));''', '''            self.records.0.insert(Dependency::File(ext, id));'''))
+V('c06-ok-reload-not-written-when-equal-id', 'C06', 'C06.R2', (A, '''            Ok(e) => {
+                handle.write(e);''', '''            Ok(e) => {
+                if !e.id().is_empty() {
+                    handle.write(e);
+                }'''))
+V('c03-seed-break-on-conversion', 'C03', 'C03.R1', (AS, '''            Err(err) => error = err.or(error),
+            Ok(asset) => return Ok(asset),''', '''            Ok(asset) => return Ok(asset),
+            Err(err @ ErrorKind::Conversion(_)) => {
+                error = err;
+                break;
+            }
+            Err(err) => error = err.or(error),'''))
+V('c06-seed-subset-deps', 'C06', 'C09.R3', (HD, '''                if let Some(new_deps) = new_deps {
+                    self.insert(Dependency::Asset(key), new_deps, typ);
+                }''', '''                if let Some(new_deps) = new_deps {
+                    if new_deps.iter().any(|d| !entry.deps.iter().any(|o| o == d)) {
+                        self.insert(Dependency::Asset(key), new_deps, typ);
+                    }
+                }'''))
+V('c05-seed-orphan-node-dropped', 'C05', 'C05.R4', (HD, '''                    let removed = match self.0.get_mut(&key) {
+                        Some(entry) => entry.rdeps.remove(&asset_key),
+                        None => false,
+                    };''', '''                    let removed = match self.0.get_mut(&key) {
+                        Some(entry) => entry.rdeps.remove(&asset_key),
+                        None => false,
+                    };
+                    if self.0.get(&key).map_or(false, |n| n.rdeps.is_empty()) {
+                        self.0.remove(&key);
+                    }'''))
